@@ -78,14 +78,30 @@ func verifDeep(v reflect.Value, sparseInt bool) reflect.Value {
 		}
 		return out
 	case reflect.Ptr:
-		if v.Type() == mutexPtrType {
-			return reflect.ValueOf(&sync.Mutex{})
+		if v.IsNil() {
+			return v
 		}
-		if e := v.Type().Elem(); e.Kind() == reflect.Struct && e.Name() == "Mutex" { // the scheduler's mutex in instrumented builds
-			return reflect.New(e)
+		e := v.Type().Elem()
+		if e.Kind() == reflect.Struct && verifSyncPkg(e.PkgPath()) && !verifAtomic(e) {
+			return reflect.New(e) // a lock / wait group / once of the runtime or of the scheduler: a fresh, unlocked one
 		}
+		out := reflect.New(e) // atomics and plain state behind a pointer: an independent copy of the pointee
+		out.Elem().Set(verifDeep(verifAccess(v.Elem()), sparseInt))
+		return out
+	case reflect.Chan, reflect.Func, reflect.UnsafePointer:
+		return v // shared: channels are wiring, function values are code
+	case reflect.Interface:
+		return v // shared (no Device field holds mutable state behind an interface)
 	}
 	panic(fmt.Sprintf("VERIF-INFRA: VerifClone does not understand kind %s (%s)", v.Kind(), v.Type()))
+}
+
+func verifSyncPkg(p string) bool {
+	return p == "sync" || p == "sync/atomic" || strings.HasSuffix(p, "/vsched")
+}
+
+func verifAtomic(t reflect.Type) bool {
+	return t.PkgPath() == "sync/atomic" || strings.HasPrefix(t.Name(), "Atomic")
 }
 
 func addressable(v reflect.Value) reflect.Value {
@@ -138,8 +154,13 @@ func VerifDump(d *Device) string {
 		}
 		f := verifAccess(sv.Field(i))
 		switch f.Kind() {
-		case reflect.Chan, reflect.Func, reflect.Ptr, reflect.Interface, reflect.UnsafePointer:
+		case reflect.Chan, reflect.Func, reflect.Interface, reflect.UnsafePointer:
 			continue
+		case reflect.Ptr:
+			if f.IsNil() || f.Type().Elem().Kind() != reflect.Struct || (verifSyncPkg(f.Type().Elem().PkgPath()) && !verifAtomic(f.Type().Elem())) {
+				continue
+			}
+			f = verifAccess(f.Elem()) // state behind a pointer (atomics included) is part of the state
 		}
 		b.WriteString(name)
 		b.WriteByte('=')
